@@ -229,6 +229,10 @@ def run(chk, facts_by_config):
     chk.trusted += ['the rewrite rules of analysis/terms.py (bit-vector / ring identities)', 'rustc MIR construction',
                     'core integer semantics as modelled', 'Des::decrypt inverts Des::encrypt (for the Triple-DES clause only)']
     res = ctor.run_all(facts_by_config, lens=ctor.lens_for_tier('quick'))
+    import canary
+    for cfgname, F in facts_by_config.items():
+        if cfgname in BASE_CONFIGS:
+            canary.report_pw(chk, cfgname, F.mono)
     jobs = []
     for cfgname, F in facts_by_config.items():
         chk.configs.append(cfgname)
